@@ -241,6 +241,18 @@ func genC06(r *Rng, idx int, tier string) *World {
 	w.Pool = genPoolCfg(r)
 	w.Sim = genSim(r)
 	un := append([]string{}, c06Untouched...)
+	tgAll := append([]string{}, c06Toggle...)
+	if r.Pct(45) {
+		// generated pool: arbitrary tree shapes; GenPool never puts two patterns that differ only in
+		// parameter names into one pool, so Handle outcomes do not hinge on check-then-act atomicity
+		pool := GenPool(r, r.Range(8, 16), w.Opts.Interceptors)
+		shuffle(r, pool)
+		k := len(pool) / 2
+		un, tgAll = append([]string{}, pool[:k]...), append([]string{}, pool[k:]...)
+		for len(un) < 7 {
+			un = append(un, un...)
+		}
+	}
 	shuffle(r, un)
 	nU := r.Range(2, 7)
 	fullClean := r.Pct(8)
@@ -249,15 +261,22 @@ func genC06(r *Rng, idx int, tier string) *World {
 	}
 	hid := 100
 	var upats []*Pattern
+	seenU := map[string]bool{}
 	for _, p := range un[:nU] {
+		if seenU[p] {
+			continue
+		}
+		seenU[p] = true
 		hid++
 		w.Setup = append(w.Setup, Op{K: "handle", Pattern: p, HID: hid, Methods: []string{"GET"}})
 		pp, _ := ParsePattern(p, w.Opts.Interceptors)
 		upats = append(upats, pp)
 	}
-	tg := append([]string{}, c06Toggle...)
+	tg := tgAll
 	shuffle(r, tg)
-	tg = tg[:r.Range(2, 5)]
+	if n := r.Range(2, 5); n < len(tg) {
+		tg = tg[:n]
+	}
 	var tpats []*Pattern
 	for _, p := range tg {
 		pp, _ := ParsePattern(p, w.Opts.Interceptors)
@@ -293,7 +312,13 @@ func genC06(r *Rng, idx int, tier string) *World {
 				if fullClean {
 					op.K, op.Pattern = "clean", ""
 				} else {
-					op.K, op.Pattern = "pclean", pick(r, []string{"/t/", "/posts/a", "/s/f", "/posts/{id}-x"})
+					tp := pick(r, tg)
+					op.K, op.Pattern = "pclean", pick(r, []string{"/t/", "/posts/a", "/s/f", "/posts/{id}-x", tp, tp[:r.Range(1, len(tp))]})
+					for _, u := range un[:nU] { // never clean an untouched route away
+						if strings.HasPrefix(u, op.Pattern) {
+							op.K, op.Pattern = "remove", tp
+						}
+					}
 				}
 			}
 			ops = append(ops, op)
